@@ -172,8 +172,8 @@ mut("C08", "resow-wipes-results", CROP,
     "        self.ensure_dirs_exists()\n        if self.save_fn:\n",
     "        if os.path.isdir(os.path.join(self.location, \"results\")):\n            shutil.rmtree(os.path.join(self.location, \"results\"))\n        self.ensure_dirs_exists()\n        if self.save_fn:\n")
 mut("C11", "progress-counts-any-file", CROP,
-    "                    os.path.join(self.location, \"results\", RSLT_NM.format(\"*\"))\n                )\n            )\n        else:\n            self._num_sown_batches = -1\n",
-    "                    os.path.join(self.location, \"results\", \"xyz-*\")\n                )\n            )\n        else:\n            self._num_sown_batches = -1\n",
+    "                        glob.escape(self.location), \"results\", RSLT_NM.format(\"*\")\n                    )\n                )\n            )\n        else:\n            self._num_sown_batches = -1\n",
+    "                        glob.escape(self.location), \"results\", \"xyz-*\"\n                    )\n                )\n            )\n        else:\n            self._num_sown_batches = -1\n",
     "temporary files of a write in progress / left by a kill are counted")
 # ----------------------------------------------------------------------- C09
 mut("C09", "placeholder-length-guessed", CROP,
@@ -459,7 +459,9 @@ mut("C08", "control-check_bad-loads-result-first", CROP,
 mut("C11", "control-progress-by-listdir-fullmatch", CROP,
     """            self._num_results = len(
                 glob.glob(
-                    os.path.join(self.location, "results", RSLT_NM.format("*"))
+                    os.path.join(
+                        glob.escape(self.location), "results", RSLT_NM.format("*")
+                    )
                 )
             )
 """,
